@@ -167,7 +167,7 @@ def run(R, tier):
             R.violation("R11.5", "noalloc-contrib-build", "scpi-contrib does not build in its default (no alloc) configuration: %s" % e)
 
 
-def _latch(R, P, u):
+def _latch(R, P, u, rule="R11.3"):
     """ResponseUnit keeps its first error and stops writing (so a failed write cannot be overwritten by a later success)."""
     ru_adt = "scpi::parser::response::ResponseUnit"
     from . import emit as _E0
@@ -188,7 +188,7 @@ def _latch(R, P, u):
                 final = load(Loc(rv.cell, rv.path)) if isinstance(rv, RefV) else None
                 fres = final.fields.get(ri_) if isinstance(final, AggV) else None
                 keep = isinstance(fres, EnumV) and fres.name == "Err" and isinstance(fres.fields.get(0), SymV) and fres.fields[0].id == "first-error"
-                R.check(not writes and keep, "R11.3", "ResponseUnit::%s[after-error,%s]" % (meth, flags), "after a failed write nothing more is written and the failure is kept", "after a failed write (e.g. -225) ResponseUnit::%s still writes %s / replaces the stored error by %r: a later, shorter datum would turn the failure into a truncated success" % (meth, writes, fres), where=b.span)
+                R.check(not writes and keep, rule, "ResponseUnit::%s[after-error,%s]" % (meth, flags), "after a failed write nothing more is written and the failure is kept", "after a failed write (e.g. -225) ResponseUnit::%s still writes %s / replaces the stored error by %r: a later, shorter datum would turn the failure into a truncated success" % (meth, writes, fres), where=b.span)
 
 
 def _surface(R, P, u):
